@@ -372,12 +372,81 @@ pub fn gen_e2e(rng: &mut Rng) -> E2ECase {
     E2ECase { d, flags, route_ds, psnames, conflict }
 }
 
-pub fn run_e2e(args: &Args) {
+/// Directed probes: every hypothesis the proofs forced, at the excluded point, as a minimal source.
+pub const N_PROBES: usize = 13;
+
+pub fn gen_probe(i: usize) -> E2ECase {
+    use design::*;
+    let simple = |k: i64| GlyphDef { advance: 500.0, contours: vec![square(50 + 10 * k, 0, 100 + 10 * k)], ..Default::default() };
+    let comp = |bases: &[&str], contour: bool| GlyphDef {
+        advance: 600.0,
+        contours: if contour { vec![square(400, 300, 80)] } else { vec![] },
+        components: bases.iter().enumerate().map(|(k, b)| Comp { base: b.to_string(), t: [1.0, 0.0, 0.0, 1.0, 30.0 * k as f64, 10.0] }).collect(),
+        ..Default::default()
+    };
+    let mut glyphs: BTreeMap<String, GlyphDef> = BTreeMap::new();
+    let mut order: Option<Vec<&str>> = None;
+    let mut skip: Vec<&str> = vec![];
+    let mut cps: Vec<(&str, Vec<u32>)> = vec![];
+    let mut flags = 0b1000_0100u32;
+    let mut route_ds = false;
+    let mut psnames: Option<Vec<(String, String)>> = None;
+    let mut conflict = false;
+    let abc = |glyphs: &mut BTreeMap<String, GlyphDef>| { for (k, n) in ["a", "b", "c"].iter().enumerate() { glyphs.insert(n.to_string(), simple(k as i64)); } };
+    match i {
+        0 => { abc(&mut glyphs); order = Some(vec!["b", "a", "b", "a"]); cps = vec![("a", vec![0x61]), ("b", vec![0x62]), ("c", vec![0x63])]; }
+        1 => { abc(&mut glyphs); order = Some(vec!["nosuch", "c", "ghost", "a"]); cps = vec![("a", vec![0x61])]; }
+        2 => { glyphs.insert(".notdef".into(), simple(0)); glyphs.insert("a".into(), simple(1)); skip = vec![".notdef"]; cps = vec![("a", vec![0x61])]; }
+        3 => { abc(&mut glyphs); cps = vec![("a", vec![0x41]), ("b", vec![0x41])]; conflict = true; }
+        4 => { abc(&mut glyphs); glyphs.insert("x".into(), simple(3)); skip = vec!["x"]; cps = vec![("a", vec![0x41]), ("x", vec![0x41, 0x78])]; }
+        5 | 6 => {
+            glyphs.insert("a".into(), simple(0)); glyphs.insert("e".into(), comp(&["a"], true)); glyphs.insert("e.0".into(), simple(2));
+            skip = vec!["e.0"]; cps = vec![("a", vec![0x61]), ("e", vec![0x65])];
+            flags = if i == 5 { 0b1000_0000 } else { 0b1000_0100 };
+        }
+        7 => { abc(&mut glyphs); glyphs.insert(".notdef".into(), simple(4)); order = Some(vec!["a", ".notdef", "b"]); cps = vec![("a", vec![0x61])]; }
+        8 => { abc(&mut glyphs); order = Some(vec!["c", "b", "a"]); cps = vec![("c", vec![0x63, 0x1F600])]; }
+        9 => { glyphs.insert(".notdef".into(), simple(0)); glyphs.insert("a".into(), comp(&[".notdef"], false)); skip = vec![".notdef"]; cps = vec![("a", vec![0x61]), (".notdef", vec![0x3F])]; }
+        10 => { glyphs.insert(".notdef".into(), simple(0)); glyphs.insert("a".into(), simple(1)); skip = vec![".notdef"]; route_ds = true; }
+        11 => {
+            glyphs.insert("a".into(), simple(0)); glyphs.insert("x".into(), comp(&["a"], true)); glyphs.insert("e".into(), comp(&["x", "a"], false));
+            skip = vec!["x"]; order = Some(vec!["e", "x", "a"]); cps = vec![("e", vec![0x65, 0x1F600]), ("x", vec![0x78])];
+        }
+        _ => {
+            abc(&mut glyphs); order = Some(vec!["c", "a", "b"]); cps = vec![("a", vec![0x61]), ("b", vec![0x62])];
+            psnames = Some(vec![("a".into(), "dup".into()), ("b".into(), "c".into()), ("c".into(), "d-u-p".into())]);
+        }
+    }
+    let mut d = Design { family: "Verif Test".into(), upem: 1000, ..Default::default() };
+    if route_ds {
+        d.axes.push(AxisDef { tag: "wght".into(), name: "Weight".into(), min: 100.0, default: 400.0, max: 900.0, map: vec![] });
+    }
+    d.masters.push(Master {
+        name: "M0".into(), style: "Regular".into(), loc: if route_ds { vec![400.0] } else { vec![] }, glyphs,
+        info: vec![("ascender".into(), 800.0), ("descender".into(), -200.0), ("xHeight".into(), 500.0), ("capHeight".into(), 700.0)],
+        ..Default::default()
+    });
+    d.glyph_order = order.map(|o| o.iter().map(|s| s.to_string()).collect());
+    d.skip_export = skip.iter().map(|s| s.to_string()).collect();
+    d.codepoints = cps.into_iter().map(|(k, v)| (k.to_string(), v)).collect();
+    if let Some(m) = &psnames {
+        let mut v = String::from("<dict>");
+        for (k, t) in m { v.push_str(&format!("<key>{}</key><string>{}</string>", write::xml_escape(k), write::xml_escape(t))); }
+        v.push_str("</dict>");
+        d.lib_extra.push(("public.postscriptNames".into(), v));
+    }
+    E2ECase { d, flags, route_ds, psnames, conflict }
+}
+
+pub fn run_e2e(args: &Args) { run_e2e_stream("c06e2e", args) }
+pub fn run_probe(args: &Args) { run_e2e_stream("c06probe", args) }
+
+fn run_e2e_stream(stream: &'static str, args: &Args) {
     let seed = args.seed;
-    crate::run_cases("c06e2e", args, move |i| {
-        let mut rng = Rng::for_case(seed, "c06e2e", i);
-        let c = gen_e2e(&mut rng);
-        let tmp = build::tmpdir("c06e2e");
+    crate::run_cases(stream, args, move |i| {
+        let mut rng = Rng::for_case(seed, stream, i);
+        let c = if stream == "c06probe" { gen_probe(i % N_PROBES) } else { gen_e2e(&mut rng) };
+        let tmp = build::tmpdir(stream);
         let ds = write::write_design(tmp.path(), &c.d);
         let input = if c.route_ds {
             // a designspace source takes public.skipExportGlyphs from the designspace lib only
